@@ -496,6 +496,7 @@ def scenario(c):
             else:
                 L += ["load %s" % state_name(c, nev), "echo LOADED", "dumpabf %s" % bname(c)]
             nev += 1
+        L += st.get("script", [])      # script commands given before this step (regression scenarios)
         if st.get("badconfig"):
             L += ["echo BADCONFIG", "config EOF", "abf {", "  name bad",
                   "  colvars %s" % ("v0" if st["badconfig"] == "minfull" else "nosuchvariable"),
@@ -1288,6 +1289,24 @@ def judge_walls_subtract(c, steps):
     return None
 
 
+def witness_subtract_switched():
+    """W15 (known): subtractAppliedForce switched on at run time (`cv colvar v0 set subtract_applied_force_from_total_force 1`) before
+    step 3; lagged forces, minSamples 0, fullSamples 1, applyBias on, engine force 2 at every step: every sample is 2."""
+    c = _c1("W15", _v1(), [(0.5, 2.0, False)] * 6, full=1, min=0, apply=True)
+    c["steps"][3]["script"] = ["script cv colvar v0 set subtract_applied_force_from_total_force 1"]
+    return c
+
+
+def judge_subtract_switched(c, steps):
+    last = steps[-1]
+    if last["cnt"][0] != 5 or last["sum"][0] != -10.0:
+        return ("lagged total forces, engine force 2 at every step, abf applying -2 from step 1 on, subtractAppliedForce switched on by script before step 3: "
+                "five samples of 2 (sum -10); the implementation has count %s and sum %s, total force reported at step 3: %s: at the step after the switch "
+                "neither the variable (f_old was not recorded while the option was off) nor the bias (which now trusts the variable) removes the ABF force of step 2"
+                % (last["cnt"][0], last["sum"][0], steps[3]["tf"][0]))
+    return None
+
+
 WITNESSES = ((witness_zero_total, "sample:subtractAppliedForce-zero-total-force", judge_zero_total),
              (witness_zero_total_abf, "sample:subtractAppliedForce-zero-total-force", judge_zero_total_abf),
              (witness_value_zero, "sample:force-dropped-at-value-zero", judge_value_zero),
@@ -1301,6 +1320,7 @@ WITNESSES = ((witness_zero_total, "sample:subtractAppliedForce-zero-total-force"
              (witness_input, "sample:inputPrefix-data", judge_input),
              (witness_restart_zero_mean, "force:periodic-zero-mean", judge_restart_zero_mean),
              (witness_walls_subtract, "sample:subtractAppliedForce-bypassing-bias-not-subtracted", judge_walls_subtract),
+             (witness_subtract_switched, "sample:subtractAppliedForce-switched-on-at-run-time", judge_subtract_switched),
              (witness_cap_order, "force:cap", judge_cap_order),
              (witness_reload_stale, "sample:reload-stale-total-force", judge_reload_stale),
              (witness_late, "sample:bias-defined-at-run-time-bin0", judge_late),
@@ -1357,6 +1377,8 @@ SHOWN = ("bin", "fbin", "cf", "tf", "af", "cnt", "sum", "go", "scr")
 def tie_case(run, c, im, mline):
     """implementation vs model, step by step, every field bit-exact"""
     # timeStepFactor > 1: the driver runs abf_mstep (awake / asleep steps)
+    if any(s_.get("script") for s_ in c["steps"]):
+        return      # variable-level options switched by script are constants of the model: judged by the oracle alone
     steps_i = im["steps"]
     msteps, spec = parse_model(mline) if mline is not None else ([], None)
     if len(msteps) != len(steps_i):
